@@ -437,6 +437,28 @@ def twin(line: str) -> str:
     return " ".join(_TWIN.get(t, t) for t in line.split(" "))
 
 
+def raising_lines() -> list[str]:
+    """renderings that raise part-way through (an un-expanded tagifiable object deep inside script / style / ordinary
+    and inline parents): state that is set before a child list is rendered and restored afterwards must be restored on
+    the exceptional exit too"""
+    from wire import enode, es
+    tob = ("tobjL", None, [])
+    out = []
+    for name, ws in (("script", True), ("style", True), ("div", True), ("span", False), ("pre", False)):
+        t = ("tag", name, ws, [("id", ("p", "a<b"))], [("text", "a<b>&c"), tob, ("html", "<i>")])
+        out.append(f"render_tag {enode(t)} 0 {es(chr(10))}")
+        out.append(f"render_tag {enode(('tag', 'div', True, [], [t, ('text', 'x')]))} 1 {es(chr(10))}")
+    return out
+
+
+def with_history(rng: random.Random, line: str, p: float = 0.08) -> str:
+    """with probability p the line preceded, in the same process, by its twin or by a rendering that raises"""
+    if rng.random() >= p or line.startswith("after ") or len(line) > 4000:
+        return line
+    pre = twin(line) if rng.random() < 0.5 else rng.choice(raising_lines())
+    return line if pre == line else f"after {pre} ;; {line}"
+
+
 def history_lines(rng: random.Random, lines: list[str], k: int) -> list[str]:
     """`after <history> ;; <line>`: a sample of the given lines, each evaluated after (a) its twin, (b) its twin twice
     and another line, in the same process — state left behind by earlier calls (caches keyed on equal-but-different
@@ -447,9 +469,12 @@ def history_lines(rng: random.Random, lines: list[str], k: int) -> list[str]:
     out = []
     for l in rng.sample(cand, min(k, len(cand))):
         tw = twin(l)
-        if tw == l:
+        r = rng.random()
+        if r < 0.25:
+            out.append(f"after {rng.choice(raising_lines())} ;; {l}")
+        elif tw == l:
             continue
-        if rng.random() < 0.7:
+        elif r < 0.75:
             out.append(f"after {tw} ;; {l}")
         else:
             out.append(f"after {tw} ;; {rng.choice(cand)} ;; {tw} ;; {l}")
